@@ -40,6 +40,7 @@ Dispatch(e) == LET k == e.k  a == e.a IN
     \/ e.op = "CopyW"      /\ CopyW(k, a.j, a.form)
     \/ e.op = "ValueOr"    /\ ValueOr(k, a.v, a.d, a.form)
     \/ e.op = "MoveW"      /\ MoveW(k, a.j)
+    \/ e.op = "RelocW"     /\ RelocW(k, a.j)
     \/ e.op = "AssignW"    /\ AssignW(k, a.j, a.mv)
     \/ e.op = "Swap"       /\ Swap(k, a.j, a.how)
     \/ e.op = "Equal"      /\ Equal(k, a.j)
